@@ -8,6 +8,7 @@ import (
 	"crypto/tls"
 	"errors"
 	"fmt"
+	"github.com/saucelabs/forwarder/httplog"
 	"io"
 	"net"
 	"net/http"
@@ -45,6 +46,7 @@ type fwdCfg struct {
 	Handler     bool     `json:"handler"` // TestingHTTPHandler variant
 	ProxyProto  bool     `json:"proxyProto"`
 	TLS         bool     `json:"tls"`
+	LogHTTP     string   `json:"loghttp"` // --log-http mode of the proxy ("" = default)
 
 	IdleTimeout       time.Duration `json:"-"`
 	ReadHeaderTimeout time.Duration `json:"-"`
@@ -240,6 +242,9 @@ func startFwd(c fwdCfg) (*fwd, error) {
 	cfg.ReadLimit = forwarder.SizeSuffix(c.ReadLimit)
 	cfg.WriteLimit = forwarder.SizeSuffix(c.WriteLimit)
 	cfg.TestingHTTPHandler = c.Handler
+	if c.LogHTTP != "" {
+		cfg.LogHTTPMode = httplog.Mode(c.LogHTTP)
+	}
 	cfg.ConnectFunc = c.connectFunc
 	if c.ShutdownTimeout > 0 {
 		forwarder.VerifShutdownTimeout(cfg, c.ShutdownTimeout)
